@@ -251,8 +251,204 @@ def gen_no_counterpart(rng):
     return "gfa1", lines
 
 
+def gen_whole_segment(rng):
+    """links whose overlap covers the whole of one or of both segments, in every orientation pair
+    (which kind of E line that is may be argued about; where the '$' belongs may not: on every
+    position which is the end of the segment, and on no other)."""
+    la, lb = rng.randint(3, 12), rng.randint(3, 12)
+    k = rng.choice(["both", "from", "to", "zero"])
+    if k == "both":
+        lb = la
+        ov = "%dM" % la
+    elif k == "from":
+        lb = la + rng.randint(1, 4)
+        ov = "%dM" % la if rng.random() < 0.5 else "%dM%dI" % (la, rng.randint(1, lb - la))
+    elif k == "to":
+        la = lb + rng.randint(1, 4)
+        ov = "%dM" % lb if rng.random() < 0.5 else "%dM%dD" % (lb, rng.randint(1, la - lb))
+    else:
+        ov = "0M"
+    segs = ["S\ta\t*\tLN:i:%d" % la, "S\tb\t%s" % G.rseq(rng, lb)]
+    t = rng.choice(["b", "b", "a"]) if k in ("both", "zero") else "b"
+    return segs + ["L\ta\t%s\t%s\t%s\t%s" % (rng.choice("+-"), t, rng.choice("+-"), ov)], k
+
+
+def dollar_rule(ctx, out, what):
+    """'$' exactly at a segment's end: on every position of an E or F line which equals the length
+    of the segment it lies on, and on no other."""
+    recs = [S.parse_line(l, "gfa2") for l in out]
+    slen = {r.pos[0]: int(r.pos[1]) for r in recs if r.rt == "S" and r.pos[1].isdigit()}
+    for r in recs:
+        if r.rt == "E":
+            chk = [(r.pos[1][:-1], r.pos[3]), (r.pos[1][:-1], r.pos[4]), (r.pos[2][:-1], r.pos[5]), (r.pos[2][:-1], r.pos[6])]
+        elif r.rt == "F":
+            chk = [(r.pos[0], r.pos[2]), (r.pos[0], r.pos[3])]
+        else:
+            continue
+        for sid, p in chk:
+            if sid not in slen or not p.rstrip("$").isdigit():
+                continue
+            ctx.count("positions_checked_for_$")
+            if (int(p.rstrip("$")) == slen[sid]) != p.endswith("$"):
+                ctx.violation("dollar-misplaced/%s/%s" % (what, "missing" if not p.endswith("$") else "on-inner-position"),
+                              "%r: position %s on segment %s of length %d; converted document %r"
+                              % (r.text(), p, sid, slen[sid], out))
+                return False
+    return True
+
+
+def run_whole_segment(case, ctx):
+    lines, vlevel = case["lines"], case["vlevel"]
+    r = build(ctx, lines, "gfa1", vlevel)
+    if not r.ok:
+        ctx.violation("valid-document-refused/%s" % r.cls(), "%r: %s" % (lines, str(r.exc)[:200]), prop="C01")
+        return
+    c = call(ctx, "to_gfa2_s", r.value.to_gfa2_s)
+    ctx.count("whole_segment_overlap_conversions")
+    ctx.add("whole_segment_kinds", case["wk"])
+    if not c.ok:
+        ctx.violation("to_gfa2-raises/%s" % c.cls(), "%r: %s" % (lines, str(c.exc)[:300]))
+        return
+    out = S.split_doc(c.value)
+    if not dollar_rule(ctx, out, "1to2"):
+        return
+    recs1 = [S.parse_line(l, "gfa1") for l in lines]
+    lens = CV.seg_lengths(recs1, "gfa1")
+    want = [CV.e_nf(CV.e_of_link(x, lens)) for x in recs1 if x.rt == "L"]
+    got = [CV.e_nf(CV.e_tuple(y)) for y in (S.parse_line(l, "gfa2") for l in out) if y.rt == "E"]
+    if sorted(want) != sorted(got):
+        ctx.violation("edge-mistranslated/1to2/whole-segment", "expected (normal form) %r, got %r\n document %r\n converted %r"
+                      % (want, got, lines, out))
+        return
+    ctx.nontriv(lines)
+    ctx.sample({"version": "gfa1", "lines": lines, "converted": out})
+
+
+def gen_paths_2to1(rng):
+    """a GFA2 graph of dovetails (written from an independent GFA1-style model: oriented pair,
+    CIGAR, lengths) with ordered groups which walk over them in either direction, listed as
+    segments only, alternating, edges only, a single edge, or beginning / ending with an edge."""
+    n = rng.randint(2, 5)
+    names = rng.sample(["a", "b", "c", "d", "s1", "x2"], n)
+    lens = {s: rng.randint(8, 20) for s in names}
+    lines = ["S\t%s\t%d\t*" % (s, lens[s]) for s in names]
+    links = []
+    seen = set()
+    for _ in range(rng.randint(1, 2 * n)):
+        f, t = rng.choice(names), rng.choice(names)
+        fo, to = rng.choice("+-"), rng.choice("+-")
+        if f == t and fo != to:
+            continue        # (a hairpin is its own complement: '+' and '-' traversals coincide)
+        # one edge per pair of segment ends, whatever its direction (gfapy resolves a listing by
+        # the oriented pair alone: two edges over one pair make the listing ambiguous)
+        key = frozenset([(f, fo), (t, to)])
+        ikey = frozenset([(f, S.inv(fo)), (t, S.inv(to))])
+        if key in seen or ikey in seen:
+            continue
+        ov = None
+        for _ in range(20):
+            c = G.cigar1(rng, nops=rng.randint(1, 3), ops="MID", maxlen=4)
+            if 0 < CV.ref_len(c) < lens[f] and 0 < CV.query_len(c) < lens[t]:
+                ov = c
+                break
+        if ov is None:
+            continue
+        seen.add(key)
+        eid = "e%d" % len(links)
+        links.append((f, fo, t, to, ov, eid))
+        e = CV.e_of_link(S.parse_line("\t".join(["L", f, fo, t, to, ov]), "gfa1"), lens)
+        if rng.random() < 0.5:
+            e = CV.e_swap(e)
+        lines.append("\t".join(["E", eid, e[0] + e[1], e[2] + e[3], e[4][0], e[4][1], e[5][0], e[5][1], e[6]]))
+    if not links:
+        return None
+    adj = {}
+    for (f, fo, t, to, ov, eid) in links:
+        adj.setdefault((f, fo), []).append(((t, to), ov, eid, "+"))
+        adj.setdefault((t, S.inv(to)), []).append(((f, S.inv(fo)), S.cigar_complement(ov), eid, "-"))
+    paths = []
+    for pn in ["pa", "pb", "pc"][:rng.choice([1, 2, 3])]:
+        cur = rng.choice(sorted(adj))
+        segs, eds, ovs = [cur], [], []
+        for _ in range(rng.choice([1, 1, 2, 3, 4])):
+            if cur not in adj:
+                break
+            nxt, ov, eid, sg = rng.choice(adj[cur])
+            segs.append(nxt)
+            eds.append((eid, sg))
+            ovs.append(ov)
+            cur = nxt
+        if not eds:
+            continue
+        pres = rng.choice(["segments", "alternating", "edges", "edge-first", "edge-last", "edge-both"])
+        if len(eds) == 1 and rng.random() < 0.4:
+            pres = "edges"
+        sitems = [a + o for a, o in segs]
+        eitems = [e + o for e, o in eds]
+        alt = []
+        for i, si in enumerate(sitems):
+            alt.append(si)
+            if i < len(eitems):
+                alt.append(eitems[i])
+        items = {"segments": sitems, "alternating": alt, "edges": eitems, "edge-first": alt[1:],
+                 "edge-last": alt[:-1], "edge-both": alt[1:-1]}[pres]
+        lines.append("O\t%s\t%s" % (pn, " ".join(items)))
+        paths.append({"name": pn, "segs": sitems, "ovs": ovs, "presentation": pres, "nedges": len(eds)})
+    if not paths:
+        return None
+    return lines, paths
+
+
+def run_paths_2to1(case, ctx):
+    lines, vlevel = case["lines"], case["vlevel"]
+    r = build(ctx, lines, "gfa2", vlevel)
+    if not r.ok:
+        # (whether a listing is a valid ordered group is C17's question)
+        ctx.violation("valid-group-refused/%s" % r.cls(), "%r: %s" % (lines, str(r.exc)[:200]), prop="C17")
+        return
+    c = call(ctx, "to_gfa1_s", r.value.to_gfa1_s)
+    ctx.count("path_conversions_2to1")
+    if not c.ok:
+        ctx.violation("to_gfa1-raises/%s/paths" % c.cls(), "%r: %s" % (lines, str(c.exc)[:300]))
+        return
+    out = S.split_doc(c.value)
+    recs1 = [S.parse_line(l, "gfa1") for l in out]
+    for pth in case["paths"]:
+        ctx.add("path_presentations", "%s/%s" % (pth["presentation"], "1" if pth["nedges"] == 1 else "n"))
+        ps = [x for x in recs1 if x.rt == "P" and x.pos[0] == pth["name"]]
+        if len(ps) != 1:
+            ctx.violation("path-lost/2to1", "%s (%s) in %r; converted %r" % (pth["name"], pth["presentation"], lines, out))
+            return
+        got = ps[0].pos[1].split(",")
+        if got != pth["segs"]:
+            ctx.violation("path-segments-differ/2to1/%s" % pth["presentation"],
+                          "the group %s walks over %r, the converted path is %r\n document %r\n converted %r"
+                          % (pth["name"], pth["segs"], ps[0].text(), lines, out))
+            return
+        govs = ps[0].pos[2].split(",")
+        if govs != ["*"] and govs != pth["ovs"]:
+            ctx.violation("path-overlaps-differ/2to1/%s" % pth["presentation"],
+                          "the group %s walks over the alignments %r, the converted path is %r\n document %r"
+                          % (pth["name"], pth["ovs"], ps[0].text(), lines))
+            return
+        ctx.count("paths_compared_2to1")
+    if not check_valid_target(ctx, out, "gfa1", "2to1-paths"):
+        return
+    ctx.nontriv(lines)
+    ctx.sample({"version": "gfa2", "lines": lines, "converted": out})
+
+
 def cases(rng, tier, shard, nshards):
     while True:
+        if rng.random() < 0.08:
+            x = gen_paths_2to1(rng)
+            if x is not None:
+                yield {"version": "gfa2", "k": "paths-2to1", "lines": x[0], "paths": x[1], "vlevel": rng.choice([1, 2, 3])}
+            continue
+        if rng.random() < 0.04:
+            l, wk = gen_whole_segment(rng)
+            yield {"version": "gfa1", "k": "whole-segment", "wk": wk, "lines": l, "vlevel": rng.choice([1, 2, 3])}
+            continue
         if rng.random() < 0.03:
             v, l = gen_no_counterpart(rng)
             yield {"version": v, "k": "no-counterpart", "lines": l, "vlevel": rng.choice([0, 1, 2, 3])}
@@ -355,6 +551,10 @@ def run(case, ctx):
         return run_no_counterpart(case, ctx)
     if case.get("k") == "gfa1-only-ops":
         return run_gfa1_only_ops(case, ctx)
+    if case.get("k") == "whole-segment":
+        return run_whole_segment(case, ctx)
+    if case.get("k") == "paths-2to1":
+        return run_paths_2to1(case, ctx)
     if case["version"] == "gfa1":
         return run_1to2(case, ctx)
     return run_2to1(case, ctx)
@@ -467,6 +667,8 @@ def _run_1to2(case, ctx, g):
     out = S.split_doc(c.value)
     recs2 = [S.parse_line(l, "gfa2") for l in out]
     if not check_valid_target(ctx, out, "gfa2", "1to2"):
+        return
+    if not dollar_rule(ctx, out, "1to2"):
         return
     # segments
     seg2 = {x.pos[0]: x for x in recs2 if x.rt == "S"}
@@ -769,6 +971,8 @@ def _run_2to1(case, ctx, g):
         return
     b = S.split_doc(back.value)
     if not check_valid_target(ctx, b, "gfa2", "2to1to2"):
+        return
+    if not dollar_rule(ctx, b, "2to1to2"):
         return
     brecs = [S.parse_line(l, "gfa2") for l in b]
     bnf = [CV.e_nf(CV.e_tuple(y)) for y in brecs if y.rt == "E"]
